@@ -115,7 +115,7 @@ let mdat_model (a : string array) : string =
   res_str (fun out -> "ok/" ^ (match out with [] -> "" | _ -> hex_of_bytes out)) (write_mdat file true m rs)
 
 (* cropMP4 on the virtual file: observed = <base>/<old size without mdat>/<rest>/(err | ok/<new mdat start>/...)
-   arg = ms:mdatFirst:inHdr:between:pad:mvts:payloadLen:zero:timescales[:handlers[:mem]] *)
+   arg = ms:mdatFirst:inHdr:between:pad:mvts:payloadLen:zero:timescales[:handlers[:mem|lazy[:dup]]] *)
 let virt_model (tbs : tables list) (a : string array) (obs : string) : string =
   match split_on '/' obs with
   | base :: oldswm :: rest :: _ ->
@@ -127,9 +127,10 @@ let virt_model (tbs : tables list) (a : string array) (obs : string) : string =
         L.map (fun h -> n_of_int (match h with "v" -> 0 | "s" -> 1 | _ -> 2)) (split_on ',' a.(9))
       else L.mapi (fun i _ -> n_of_int (if i = 0 then 0 else 1)) tbs in
     let mem = Array.length a >= 11 && a.(10) = "mem" in
+    let dup = Array.length a >= 12 && a.(11) = "dup" in
     let hs = L.mapi (fun i ((t, ts), h) ->
         { th_handler = h;
-          th_trak = { ti_id = n_of_int (i + 1); ti_ts = ts; ti_tb = with_offsets t (fun o -> BinNat.N.add o base_n) } })
+          th_trak = { ti_id = n_of_int (if dup && i > 0 then i else i + 1); ti_ts = ts; ti_tb = with_offsets t (fun o -> BinNat.N.add o base_n) } })
         (L.combine (L.combine tbs tss) handlers) in
     let total t = L.fold_left2 (fun acc c d -> BinNat.N.add acc (BinNat.N.mul c d)) BinNums.N0 t.t_stts_count t.t_stts_delta in
     let tks = L.map (fun h -> let tr = h.th_trak in
